@@ -419,6 +419,8 @@ def tree(recipe, w, world, route, threshold=0, late=False, ctor="api"):
                 continue
             except Malformed as ex:
                 post["C13 operand %s malformed afterwards: %s" % (show(src), ex)] = False
+                # the composition's tiling invariant is also C12's subject (widths of every node)
+                post["C12 operand %s no longer tiles its width: %s" % (show(src), ex)] = False
                 continue
             if obj.size == wsub:
                 post["C13 operand %s keeps value" % show(src)] = Implies(And(side), Eq(d, ref(src, env, [])))
